@@ -53,6 +53,8 @@ def to_lib(K, naming='int', how=0, containers='list'):
         elif containers == 'tuple':
             lab = tuple(lab)
         L[nm(i)] = lab
+    if containers == 'shared':
+        pass
     if containers == 'set':
         V, E = set(V), set(E)
     elif containers == 'tuple':
@@ -67,9 +69,15 @@ def to_lib(K, naming='int', how=0, containers='list'):
     elif containers == 'tuple' and S0 is not None:
         S0 = tuple(S0)
     try:
-        if S0 is None:
-            return Kripke(S=V, R=E, L=L)
-        return Kripke(S=V, S0=S0, R=E, L=L)
+        kr = Kripke(S=V, R=E, L=L) if S0 is None else Kripke(S=V, S0=S0, R=E, L=L)
+        if containers == 'shared':
+            # labels handed over through the documented replace_labelling_function, states with EQUAL
+            # label sets sharing ONE set object (IDLE = {'idle'}; {0: IDLE, 1: BUSY, 2: IDLE}): whatever
+            # the checkers do on their working copy must not travel along the alias
+            pool = {}
+            kr.replace_labelling_function(dict(
+                (nm(i), pool.setdefault(frozenset(K['labels'][i]), set(K['labels'][i]))) for i in range(n)))
+        return kr
     except Exception as e:
         from . import core
         raise core.Refused(core.Failure('build', {'K': K, 'naming': naming, 'how': how, 'containers': containers},
